@@ -1,7 +1,7 @@
 import re
 
 from orchestrate.common import run_check
-from checks.c06 import e2e_post, e2e_coverage, _skipped
+from checks.c06 import e2e_post, e2e_coverage, _skipped, _fld, _nframes, full_run
 
 # ---- census tie: the variant lists of the three error enums in /repo vs. the model's inductive
 # types (the names of the I cases are produced from coq/Model/Spec.v's all_request_errors through
@@ -91,6 +91,8 @@ def _census(lines):
         else:
             code.add(v)
     model = {ln.split()[1][1:] for ln in lines if ln.startswith("I E")}
+    if not model and full_run(lines):
+        problems.append(("diff", "census", "diff census: the run contains no I case (can_be_ignored table not tied)"))
     if model and code != model:
         problems.append(("diff", "census RequestError/RequestAttemptError/DbError variants",
                          "diff census: only-in-code=%s only-in-model=%s"
@@ -98,8 +100,50 @@ def _census(lines):
     return problems
 
 
+E13_FLOORS = [
+    ("not idempotent with a speculative policy through a pager", lambda t: _fld(t, "idem") == "0" and _fld(t, "spec") != "-" and _fld(t, "api") in ("qi", "ei"), 80),
+    ("not idempotent with a speculative policy", lambda t: _fld(t, "idem") == "0" and _fld(t, "spec") != "-", 300),
+    ("idempotent with a speculative policy and more than one frame", lambda t: _fld(t, "idem") == "1" and _fld(t, "spec") != "-" and _nframes(t) > 1, 250),
+    ("idempotent with max_retry_count = 0", lambda t: _fld(t, "idem") == "1" and _fld(t, "spec").startswith("0:"), 30),
+    ("idempotent with max_retry_count = 0 and a slow first answer (a frame unanswered or answered > 100 ms after arrival)",
+     lambda t: _fld(t, "idem") == "1" and _fld(t, "spec").startswith("0:") and _slow_first(t), 14),
+    ("that failed", lambda t: _fld(t, "res").startswith("X"), 150),
+]
+KIND_FLOORS = {"I": 35, "X": 100000, "P": 30000}
+
+
+def _slow_first(t):
+    fr = _fld(t, "fr")
+    if fr == "-":
+        return False
+    p = fr.split(",")[0].split("/")
+    return p[3] == "-" or int(p[3], 16) - int(p[2], 16) > 100000
+
+
 def _post(lines, verdicts):
-    return _census(lines) + e2e_post(lines, "E13")
+    out = _census(lines) + e2e_post(lines, "E13", E13_FLOORS)
+    if full_run(lines):
+        kinds = {}
+        for ln in lines:
+            k = ln.split(" ", 1)[0]
+            kinds[k] = kinds.get(k, 0) + 1
+        for k, floor in KIND_FLOORS.items():
+            if kinds.get(k, 0) < floor:
+                out.append(("diff", k, "diff floor: %d %s cases (floor %d)" % (kinds.get(k, 0), k, floor)))
+        # the zero-budget boundary in the paused-clock grid: max = 0 with an execution longer than the interval
+        z = sum(1 for ln in lines if ln.startswith("X 0 ") and _x_slow(ln))
+        if z < 8:
+            out.append(("diff", "X", "diff floor: %d X cases with max = 0 and a duration above the interval (floor 8)" % z))
+    return out
+
+
+def _x_slow(ln):
+    f = ln.split("|")[0].split()
+    try:
+        iv = int(f[2], 16)
+        return f[3] != "-" and int(f[3].split(",")[0].split(":")[0], 16) > iv
+    except (IndexError, ValueError):
+        return False
 
 
 def _extra(lines, verdicts):
@@ -121,6 +165,7 @@ SPEC = {
     "coq_targets": ["Props/C13.vo", "Extract/ExC13.vo"],
     "bin": "c13",
     "sizes": {"quick": 150000, "thorough": 2000000},
+    "min_cases": {"quick": 150000, "thorough": 1900000},
     "search_n": 400000,
     "rule": ("I = the complete can_be_ignored table (every RequestError / RequestAttemptError / DbError variant). "
              "X max interval fibers = one call of the real speculative_execution::execute (hook) under a paused Tokio "
